@@ -355,7 +355,7 @@ class Execution:
             self._abort_all()
         alive = []
         for th in threads:
-            th.join(5.0 if finished else 1.0)
+            th.join(30.0 if finished else 1.0)
             if th.is_alive():
                 alive.append(th.name)
         if not finished:
